@@ -140,6 +140,98 @@ theorem removeRequest_fields {i : RequestId} (h : s.removeRequest env i = .ok s'
 
 end Sim
 
+section
+variable {env : Env}
+
+theorem applyAct_fields {s s2 : Sim} {v : VehicleId} {a : Act} (h : applyAct env s v a = .ok s2) :
+    ∃ veh, s.vehicle? v = some veh ∧
+      s2.vehicles = replaceById Vehicle.id s.vehicles { veh with act := a } ∧
+      s2.stations = s.stations ∧ s2.bases = s.bases ∧ s2.requests = s.requests ∧
+      s2.time = s.time ∧ s2.dt = s.dt := by
+  unfold applyAct at h
+  split at h
+  · cases h
+  · next veh hveh =>
+    obtain ⟨_, h1, h2, h3, h4, h5, h6⟩ := Sim.modifyVehicle_fields h
+    exact ⟨veh, hveh, h1, h2, h3, h4, h5, h6⟩
+
+theorem pickUpTrip_fields {w w1 : World} {v : VehicleId} {rid : RequestId}
+    (h : pickUpTrip env w v rid = .ok w1) :
+    ∃ veh req, w.sim.vehicle? v = some veh ∧ w.sim.request? rid = some req ∧
+      w1.sim.vehicles = replaceById Vehicle.id w.sim.vehicles { veh with balance := veh.balance + req.value } ∧
+      w1.sim.requests = removeById Request.id w.sim.requests rid ∧
+      w1.sim.stations = w.sim.stations ∧ w1.sim.bases = w.sim.bases ∧
+      w1.sim.time = w.sim.time ∧ w1.sim.dt = w.sim.dt := by
+  unfold pickUpTrip at h
+  split at h
+  · cases h
+  · cases h
+  · next veh req hveh hreq =>
+    simp only [Outcome.bind_eq, Outcome.bind_eq_ok, Outcome.pure_eq] at h
+    obtain ⟨s1, h1, s2, h2, h3⟩ := h
+    obtain ⟨_, a1, a2, a3, a4, a5, a6⟩ := Sim.modifyVehicle_fields h1
+    obtain ⟨_, b1, b2, b3, b4, b5, b6⟩ := Sim.removeRequest_fields h2
+    cases h3
+    refine ⟨veh, req, hveh, hreq, ?_, ?_, ?_, ?_, ?_, ?_⟩
+    · simp only; rw [b4, a1]
+    · simp only; rw [b1, a4]
+    · simp only; rw [b2, a2]
+    · simp only; rw [b3, a3]
+    · simp only; rw [b5, a5]
+    · simp only; rw [b6, a6]
+
+/-- what a successful `exit` leaves untouched -/
+theorem exit_frame {s s1 : Sim} {v : VehicleId} {a : Act} (h : exit env s v a = .ok s1) :
+    s1.vehicles = s.vehicles ∧ s1.time = s.time ∧ s1.dt = s.dt := by
+  cases a <;> simp only [exit] at h
+  case idle | repositioning | outOfService | dispatchStation | dispatchBase => cases h; simp
+  case reserveBase b =>
+    split at h
+    · cases h
+    · simp only [Outcome.bind_eq, Outcome.bind_eq_ok] at h
+      obtain ⟨base', _, h2⟩ := h
+      obtain ⟨_, _, _, rfl⟩ := Sim.modifyBase_ok h2
+      simp
+  case chargingStation sid cid =>
+    split at h
+    · cases h
+    · cases h
+    · simp only [Outcome.bind_eq, Outcome.bind_eq_ok] at h
+      obtain ⟨st', _, h2⟩ := h
+      obtain ⟨_, _, _, rfl⟩ := Sim.modifyStation_ok h2
+      simp
+  case chargingBase b cid =>
+    split at h
+    · cases h
+    · split at h
+      · cases h
+      · split at h
+        · cases h
+        · simp only [Outcome.bind_eq, Outcome.bind_eq_ok] at h
+          obtain ⟨base', _, s2, h2, st', _, h4⟩ := h
+          obtain ⟨_, _, _, rfl⟩ := Sim.modifyBase_ok h2
+          obtain ⟨_, _, _, rfl⟩ := Sim.modifyStation_ok h4
+          simp
+  case chargeQueueing sid cid t =>
+    split at h
+    · cases h
+    · simp only [Outcome.bind_eq, Outcome.bind_eq_ok] at h
+      obtain ⟨st', _, h2⟩ := h
+      obtain ⟨_, _, _, rfl⟩ := Sim.modifyStation_ok h2
+      simp
+  case dispatchTrip rid r =>
+    split at h
+    · cases h; simp
+    · obtain ⟨_, _, _, rfl⟩ := Sim.modifyRequest_ok h
+      simp
+  case servicingTrip req dep r =>
+    split at h
+    · cases h; simp
+    · cases h
+  case servicingPooling | dispatchPooling => cases h
+
+end
+
 /-! ### station / base counter operations -/
 
 namespace Station
